@@ -253,6 +253,9 @@ def check_case(case):
                 n_incon += 1
                 if not tiny:
                     classes.append(f"not-converged:{solver}/{fam}/{pen}")
+                    msg = c01.stagnation(pc, out, tol)
+                    if msg:
+                        viol.append(Viol(dict(sig, kind="stagnates"), f"{solver} x {fam} x {pen} [{stg}, fit_intercept={fi}, {ws}] is neither refused nor solved: it {msg}"))
                 continue
             ck = certificate_kind(solver, fam, pen)
             if solver == "FISTA" and ws == "fixpoint" and pen not in ("L1", "WeightedL1", "L1_plus_L2", "IndicatorBox", "PositiveConstraint", "L2"):
